@@ -11,6 +11,7 @@ A case is a JSON object
   {"rlimit": n,
    "params": [{"key": K, "name": str|null, "values": [int|float|str...], "label": str|[str...]|null}],
    "steps":  [{"name": s, "description": d, "run": {"cmd":..., "depends": [...], "restart":..., ...}}],
+   "ptoken": str?   (parameter token of a custom ParameterGenerator(token=...); texts stay written with "$")
    "ltoken": str?   (label token of a custom ParameterGenerator(ltoken=...); model: LTK)
    "stream": "...", "restage": ["same"|"toggle"|"meta", ...]?}   (restage: see stage_all)
 Observable of a staging: the used-parameter table (`study.used_params`), and
@@ -31,10 +32,12 @@ that collide = K2, instance names equal to step names = K2b, references to
 non-ancestors, adjacent workspace references, dangling/late dependencies,
 empty value lists ...) | tiny (exhaustive small scope).
 
-Not generated: a non-default PARAMETER token (ParameterGenerator(token="@")).  The unchanged tree
-mishandles it (get_combinations builds Combination() with the default "$": "@(N)" is detected as a use
-but never substituted, "$(N)" is substituted only if some "@(...)" made the step parameterised, and an
-alphanumeric token makes the regex raise) -- reported to the coordinator as a witness, outside C08's model.
+Parameter token (ParameterGenerator(token=...), custom pgen): a case with "ptoken" is run on the implementation
+with every parameter-token head "$(" of its texts rewritten to ptoken + "(" and a generator constructed with that
+token; the expanded texts are mapped back before the comparison with the model, which keeps "$" (a sound
+reduction: the implementation treats the token as an opaque literal prefix).  Before the fix of get_combinations /
+_get_used_parameters (Combination() was built with the default token; the raw token was spliced into the regex)
+"@(N)" was detected as a use but never substituted and token "P" raised re.error: corpus/C08/ptoken_at.json.
 
 Verdict per case (`classify`): the monitor `C08_ok` false on the implementation's
 graph inside H8 (`hygb`, the hypothesis of theorem C08_monitor_holds) is a
@@ -95,6 +98,27 @@ def rest_keys(step):
             if k not in SPECIAL and isinstance(v, str) and v != ""]
 
 
+PTOKENS = ["@", "P", "%%", "#", "$$"]
+_PTOK_RE = re.compile(r"\$\((?!WORKSPACE\))(?![^\s()$]*\.workspace\))")
+
+
+def to_tok(text, tok):
+    """The case's texts are written with the default parameter token "$" (the model's input).  For a case with
+    "ptoken" the implementation is given the same text with every PARAMETER-token head "$(" rewritten to
+    tok + "(" ($(WORKSPACE) and $(x.workspace) are study.py's own, token-independent syntax and stay)."""
+    return _PTOK_RE.sub(lambda m: tok + "(", text) if isinstance(text, str) else text
+
+
+def from_tok(text, tok):
+    """inverse on the implementation's expanded texts (unsubstituted near-miss tokens come back as "$(")"""
+    return text.replace(tok + "(", "$(") if isinstance(text, str) else text
+
+
+def ptoken_of(case):
+    t = case.get("ptoken")
+    return t if t not in (None, "$") else None
+
+
 def build_study(case, root):
     """Exactly the calls of maestro.run_study (no YAML file: the objects that
     YAMLSpecification.get_study_environment/get_parameters/get_study_steps
@@ -106,7 +130,13 @@ def build_study(case, root):
     env.add(Variable("SPECROOT", os.path.dirname(root)))
     # a custom pgen may construct the generator with its own label token (the parameter token `token`
     # stays "$": get_combinations builds Combination() with the default token, see the module docstring)
-    params = ParameterGenerator(ltoken=case["ltoken"]) if case.get("ltoken") is not None else ParameterGenerator()
+    kw = {}
+    if case.get("ltoken") is not None:
+        kw["ltoken"] = case["ltoken"]
+    tok = ptoken_of(case)
+    if tok is not None:
+        kw["token"] = tok
+    params = ParameterGenerator(**kw)
     for p in case["params"]:
         if p.get("name"):
             params.add_parameter(p["key"], list(p["values"]), p.get("label"), p["name"])
@@ -116,9 +146,9 @@ def build_study(case, root):
     for st in case["steps"]:
         s = StudyStep()
         s.name = st["name"]
-        s.description = st["description"]
+        s.description = to_tok(st["description"], tok) if tok else st["description"]
         for k, v in st["run"].items():
-            s.run[k] = v if not isinstance(v, list) else list(v)
+            s.run[k] = (to_tok(v, tok) if tok else v) if not isinstance(v, list) else list(v)
         steps.append(s)
     study = Study("c08_study", {"name": "c08_study", "description": "generated"},
                   studyenv=env, parameters=params, steps=steps, out_path=root)
@@ -167,6 +197,13 @@ def observe_dag(case, study, dag, root):
             "sdeps": [str(d) for d in (step.run["depends"] or [])],
             "display": str(step.name),
         })
+    tok = ptoken_of(case)
+    if tok:                       # back to the model's token before comparing (see to_tok)
+        for nd in nodes:
+            if nd.get("rec"):
+                for f in ("desc", "cmd", "restart"):
+                    nd[f] = from_tok(nd[f], tok)
+                nd["rest"] = [[k, from_tok(v, tok)] for k, v in nd["rest"]]
     used = [[k, sorted(v)] for k, v in study.used_params.items()]
     return {"ok": True, "used": used, "nodes": nodes}
 
@@ -579,7 +616,7 @@ def load_corpus(pid=PID):
 
 
 def case_key(case):
-    return json.dumps({k: case.get(k) for k in ("rlimit", "params", "steps", "restage", "ltoken")}, sort_keys=True)
+    return json.dumps({k: case.get(k) for k in ("rlimit", "params", "steps", "restage", "ltoken", "ptoken")}, sort_keys=True)
 
 
 def nontrivial(case, o):
@@ -606,7 +643,8 @@ def regex_texts():
     try:
         src = open(os.path.join(common.REPO, "maestrowf/datastructures/core/parameters.py")).read()
         lits = [n.value for n in ast.walk(ast.parse(src)) if isinstance(n, ast.Constant) and isinstance(n.value, str)]
-        notes["used_param_regex_unchanged"] = r"\{}\({}(?:\.\w+)?\)" in lits
+        # .format(re.escape(self.token), key): for the default token "$" the pattern \$\(KEY(?:\.\w+)?\) the scanner models
+        notes["used_param_regex_unchanged"] = r"{}\({}(?:\.\w+)?\)" in lits
         src = open(os.path.join(common.REPO, "maestrowf/datastructures/core/study.py")).read()
         lits = [n.value for n in ast.walk(ast.parse(src)) if isinstance(n, ast.Constant) and isinstance(n.value, str)]
         notes["wsregex_unchanged"] = r"\$\(([-!\$%\^&\*\(\)_\+\|~=`{}\[\]:;<>\?,\.\/\w]+)\.workspace\)" in lits
@@ -861,6 +899,16 @@ def run(ck):
     rs = random.Random(ck.seed * 104729 + 7)
     for batch in gen_sibling_batches(rs, 24 if quick else 400):
         cases += batch
+    # parameter-token stream: a custom pgen's ParameterGenerator(token=...) -- a share of the cases is run with the
+    # parameter tokens of its texts written with another token (the model keeps "$": see to_tok)
+    rp = random.Random(ck.seed * 15485863 + 5)
+    for k, case in enumerate(cases):
+        share = {"tiny": 0.12, "valid": 0.2, "prefix": 0.2, "sibling": 0.2}.get(case["stream"], 0.0)
+        if "ptoken" not in case and case.get("ltoken") is None and rp.random() < share:
+            tok = rp.choice(PTOKENS)
+            texts = json.dumps(case["steps"]) + json.dumps(case["params"])
+            if tok + "(" not in texts and "$$" not in texts:
+                case["ptoken"] = tok
     # re-stage stream: a share of the cases is staged two or three times on the SAME Study object
     rr = random.Random(ck.seed * 7919 + 13)
     for k, case in enumerate(cases):
@@ -948,7 +996,11 @@ def run(ck):
                       "each step mentions x value patterns) + seeded structured specifications (1-6 steps, ordinary and "
                       "funnel dependencies mixed, 0-4 parameters x 0-5 rows with repeated int/float/str values, template and "
                       "per-row labels, a custom label token ParameterGenerator(ltoken=..) in a quarter of the cases (plain / multi-character / "
-                      "regex-special tokens; templates using it once, twice, not at all; default labels), value/label/name tokens and near-miss tokens in cmd/restart/description/resource keys, "
+                      "regex-special tokens; templates using it once, twice, not at all; default labels), a custom PARAMETER token "
+                      "ParameterGenerator(token=..) in {@, P, %%, #, $$} in a fifth of the valid/prefix/sibling cases (the "
+                      "implementation gets the texts with '$(' rewritten to token+'(' -- $(WORKSPACE)/$(x.workspace) excepted -- and "
+                      "its expanded texts are mapped back; the model keeps '$': sound because the code treats the token as an opaque "
+                      "prefix), value/label/name tokens and near-miss tokens in cmd/restart/description/resource keys, "
                       "workspace references) in streams valid/prefix/exotic; distinct = distinct (rlimit, params, steps); "
                       "non-trivial = staged successfully with at least two instances; INTERLEAVING: the cases are processed in "
                       "batches of up to 4 (histogram 'batches': size, * = staged in another order than built): every "
@@ -965,6 +1017,11 @@ def run(ck):
     for members, order in BATCHES.get("C08", []):
         kk = "%d%s" % (len(members), "" if order == list(range(len(members))) else "*")
         hist["batches"][kk] = hist["batches"].get(kk, 0) + 1
+    hist["parameter_token"], hist["label_token"] = {}, {}
+    for case in cases:
+        for key, h in (("ptoken", "parameter_token"), ("ltoken", "label_token")):
+            if case.get(key) is not None:
+                hist[h][case[key]] = hist[h].get(case[key], 0) + 1
     hist["restage_plans"] = {}
     for case in cases:
         if case.get("restage"):
